@@ -217,6 +217,10 @@ def run(ctx):
 
     ctx.rule("R16", "WFN: number, occupation, energy and coefficients of every orbital come back in their own slot (writer fragment and reader routine evaluated)", "occupation and orbital energy swapped in the MO header line, or a coefficient line cut at the wrong column")
     check_wfn_mo_blocks(ctx, "R16")
+    ctx.rule("R17", "FCHK: shell types, centres, primitives and SP coefficients written are rebuilt as the same shells (writer block and reader block evaluated)", "the sign that marks pure shells lost or inverted, SP coefficients attached to the primitives of another shell: the coefficients are read for other basis functions")
+    from .centers import check_fchk_basis_block
+
+    check_fchk_basis_block(ctx, "R17")
     ctx.rule("R11", "segmentation before writing keeps every contraction, in order (evaluated)", "an SP / PS / general contraction is re-ordered or merged on the way to the file while the coefficient rows stay where they were")
     check_segmentation(ctx, "R11", "R11")
     ctx.rule("R9", "written coefficient rows are signs[r] x rows[permutation[r]] (symbolic evaluation of the writer expressions)", "signs are attached to the rows before they are moved (or the permutation is applied twice / on the wrong axis): coefficients of sign-flipped functions change sign or position")
